@@ -632,15 +632,46 @@ fn subs_for<B: Backend>(out: &mut Vec<SubCheck>) {
     );
 }
 
+/// "sealing to a parsed key" with the sealing randomness chosen: for RSA-KEM the rare draws whose
+/// ciphertext c = r^e mod n has 1..3 leading zero bytes are constructed (r = c^d), not waited for.
+fn seal_to_parsed_v1(acc: &mut Acc) {
+    type B = BV1;
+    let n = acc.tier.pick(4u64, 24);
+    for ki in 0..n {
+        for aim in 1u8..=3 {
+            let ks = KeySeed::from_u64(0xc04a + ki);
+            let case = json!({"recipient": ki, "leading_zero_bytes": aim});
+            acc.check(&case, |acc| {
+                let (_sk, pk, sk_raw, pk_raw) = pke_pair::<B>(&ks);
+                // the recipient key is parsed from its text, as a caller would hold it
+                let pk: PkePublicOf<B> = pk.expose_key().to_string().parse().unwrap_or_else(|e| library_refused("the text of a valid key-sealing public key", &e));
+                crate::rng::reseed_case(0xc04a + ki * 8 + aim as u64);
+                let aimed = crate::props::c05::script_leading_zero_c(0xc04a + ki * 8 + aim as u64, aim, &sk_raw, &pk_raw)?;
+                crate::rng::begin_op();
+                let r = catch(|| local_key::<B>(&ks).seal(&pk).map(|s| s.to_string()));
+                crate::rng::end_op();
+                acc.eval();
+                acc.class(&format!("seal-to-parsed-key:v1:c-leading-zero-bytes-{aimed}"));
+                acc.nt(hash_of(&(ki, aim)));
+                match r {
+                    Ok(_) => Ok(()),
+                    Err(loc) => Err(Fail::new(format!("C04/paseto-v1/seal-to-parsed-key/panic/{}", panic_site(&loc)), format!("sealing a key to a parsed k1 public key panicked at {loc} (RSA-KEM ciphertext with {aimed} leading zero byte(s))"))),
+                }
+            });
+        }
+    }
+}
+
 pub fn def() -> PropertyDef {
     let mut subs = Vec::new();
     crate::for_backends!(B => subs_for::<B>(&mut subs));
+    subs.push(SubCheck::custom("c04.seal-to-parsed-key/paseto-v1", 6, seal_to_parsed_v1, |_v: &serde_json::Value, acc: &mut Acc| { seal_to_parsed_v1(acc); Ok(()) }).isolated());
     subs.push(SubCheck::prop("c04.authentic-hostile-messages", 3, (6000, 120000), |_t| hostile_strategy(), hostile_case).isolated());
     subs.push(SubCheck::prop("c04.validators", 3, (30000, 600000), |_t| val_strategy(), val_case).isolated());
     PropertyDef {
         id: "C04",
         level: "exploration",
-        rule: "per back end (each in its own child process; harness built with overflow checks, repo crates with debug assertions): (a) enumeration of every decoded payload length 0..=700 x {random, 0x00, 0xff, mutated-valid} under every header of the back end, and every structured key-byte shape of the C08 catalogue (incl. structurally odd RSA private keys); one valid string of every kind with single bytes substituted - all 256 values at every field boundary (format tags), 12 edge values at 25 further offsets; (b) proptest inputs: header + bytes, raw key bytes of every kind, library-produced valid strings of every kind with 0-4 edits (substitute / insert / delete / append / duplicate segment / swap header / truncate), arbitrary and grammar-shaped strings; each string is offered to EVERY FromStr of the back end (tokens with Vec<u8>, (), Json and RegisteredClaims payload/footer types; key texts; typed keys of all five kinds; ids; PIE; PBKW; sealed keys) and whatever parses is used: Display, unverified_footer, unseal with and without assertion, key conversion, expose, id, clone, public_key, seal / sign / wrap / seal-key to it, unwrap, params + password unwrap (KDF cost within the budget: <= 8 MiB quick / 64 MiB thorough, <= 3 passes, <= 10000 iterations; otherwise skipped and counted), unseal-key; (c) the built-in validators (Time, TimeWithLeeway, and_then HasExpiry) and the claims codec on claims whose exp/nbf lie anywhere in jiff's range incl. MIN, MAX and within k leeways of either edge (now within +-10^10 s, leeway <= 10^8 s), directly and through unseal of an authentic token; (d) authentic local and public tokens of every back end whose message and footer BYTES are hostile (empty, whitespace, non-objects, truncated objects, bad escapes, BOM, invalid UTF-8, nesting depth 1..400, junk around a valid object, arbitrary bytes), parsed and unsealed as RegisteredClaims / Json<Value> / Json<Map> payloads with bytes / () / Json footers, and the codecs called directly; oracle: every call returns Ok or Err - a panic is a violation keyed by its source location, a dead child process (abort / SIGSEGV) is a violation. Non-trivial iff accepted by at least one parser stage; distinct by (stages reached, length class, input class). Thorough adds libFuzzer+ASan campaigns over the same entry function",
+        rule: "per back end (each in its own child process; harness built with overflow checks, repo crates with debug assertions): (a) enumeration of every decoded payload length 0..=700 x {random, 0x00, 0xff, mutated-valid} under every header of the back end, and every structured key-byte shape of the C08 catalogue (incl. structurally odd RSA private keys); one valid string of every kind with single bytes substituted - all 256 values at every field boundary (format tags), 12 edge values at 25 further offsets; (b) proptest inputs: header + bytes, raw key bytes of every kind, library-produced valid strings of every kind with 0-4 edits (substitute / insert / delete / append / duplicate segment / swap header / truncate), arbitrary and grammar-shaped strings; each string is offered to EVERY FromStr of the back end (tokens with Vec<u8>, (), Json and RegisteredClaims payload/footer types; key texts; typed keys of all five kinds; ids; PIE; PBKW; sealed keys) and whatever parses is used: Display, unverified_footer, unseal with and without assertion, key conversion, expose, id, clone, public_key, seal / sign / wrap / seal-key to it, unwrap, params + password unwrap (KDF cost within the budget: <= 8 MiB quick / 64 MiB thorough, <= 3 passes, <= 10000 iterations; otherwise skipped and counted), unseal-key; (c) the built-in validators (Time, TimeWithLeeway, and_then HasExpiry) and the claims codec on claims whose exp/nbf lie anywhere in jiff's range incl. MIN, MAX and within k leeways of either edge (now within +-10^10 s, leeway <= 10^8 s), directly and through unseal of an authentic token; (d') paseto-v1: keys sealed to parsed k1 public keys with the RSA-KEM draw constructed so that the ciphertext has 1..3 leading zero bytes; (d) authentic local and public tokens of every back end whose message and footer BYTES are hostile (empty, whitespace, non-objects, truncated objects, bad escapes, BOM, invalid UTF-8, nesting depth 1..400, junk around a valid object, arbitrary bytes), parsed and unsealed as RegisteredClaims / Json<Value> / Json<Map> payloads with bytes / () / Json footers, and the codecs called directly; oracle: every call returns Ok or Err - a panic is a violation keyed by its source location, a dead child process (abort / SIGSEGV) is a violation. Non-trivial iff accepted by at least one parser stage; distinct by (stages reached, length class, input class). Thorough adds libFuzzer+ASan campaigns over the same entry function",
         assumptions: vec!["attacker-chosen PBKW costs beyond the stated budget are resource exhaustion, not covered", "dangerous_seal_with_nonce with a nonce shorter than the version's own is caller misuse of an API marked dangerous, not in the domain"],
         subs,
     }
